@@ -127,6 +127,56 @@ def work(item):
     return viol, counts, nontriv
 
 
+def work_walk(item):
+    """the SAME stored expression brailled under code A and then, without a new set_mathml, under code B: every literal must still be
+    rendered under B (a getter that rewrites the stored expression for its own code shows here and nowhere else)"""
+    a_code, b_code, cases = item
+    mc = mcx.worker_mc()
+    lang, mark, table, dec = CODES[b_code]
+    work((b_code, [], []))                  # reference cell runs of B (fresh sessions)
+    ref, alone = _REF[(b_code, "[]")]
+    setup = [["rules_dir", mcx.RULES], ["pref", "TTS", "none"], ["pref", "Language", lang], ["pref", "BrailleNavHighlight", "Off"]]
+    built = []
+    for label, sh in cases:
+        f = terms.Filler("num", mark)
+        t = terms.build(sh, f)
+        built.append((label, sh, t, list(f.planted)))
+    ops = [[["pref", "BrailleCode", a_code], ["mathml", terms.doc(t)], ["braille", ""], ["pref", "BrailleCode", b_code], ["braille", ""],
+            ["pref", "BrailleCode", a_code], ["braille", ""], ["pref", "BrailleCode", b_code], ["mathml", terms.doc(t)], ["braille", ""]] for _, _, t, _ in built]
+    _, res = mc.run_cases(setup, ops)
+    viol, counts, nontriv = [], {"evaluations": 0, "skipped_panics": 0, "rejected": 0, "literals_checked": 0, "braille_errors_left_to_C15": 0}, []
+    for (label, sh, t, planted), r in zip(built, res):
+        counts["evaluations"] += 1
+        if any(is_panic(x) for x in r):
+            counts["skipped_panics"] += 1
+            continue
+        if not is_ok(r[1]):
+            counts["rejected"] += 1
+            continue
+        if not is_ok(r[4]) or not is_ok(r[9]):
+            counts["braille_errors_left_to_C15"] += 1
+            continue
+        b, fresh = unhighlight(val(r[4])), unhighlight(val(r[9]))
+        nontriv.append(hash((a_code, b_code, b)))
+        need = c04.literal_counts(planted)
+        replay = {"walk": [a_code, b_code], "label": label, "shape": sh}
+        for k, lit in enumerate(planted):
+            if lit not in ref:
+                continue
+            counts["literals_checked"] += 1
+            got = max(b.count(run) for run in ref[lit])
+            # judged only where the expression set directly under B does render the literal (anything else is the first family's business)
+            if got < need[lit] and max(fresh.count(run) for run in ref[lit]) >= need[lit]:
+                viol.append((f"C06|{b_code}|after:{a_code}|missing", f"[{a_code} then {b_code}, same stored expression] {label}: literal {lit} has no cell run {ref[lit][0]!r} in {b!r} "
+                             f"(set directly under {b_code}: {fresh!r})", replay))
+                break
+    return viol, counts, nontriv
+
+
+def _dispatch(job):
+    return work_walk(job[1:]) if job[0] == "W" else work(job)
+
+
 _REF = {}
 
 
@@ -137,7 +187,10 @@ def confirm(replay, verbose=False):
     _REF.clear()
     try:
         cases = [] if replay["shape"] is None else [(replay["label"], c04._tup(replay["shape"]))]
-        v, _, _ = work((replay["code"], replay["prefs"], cases))
+        if "walk" in replay:
+            v, _, _ = work_walk((replay["walk"][0], replay["walk"][1], cases))
+        else:
+            v, _, _ = work((replay["code"], replay["prefs"], cases))
     finally:
         mcx._worker_mc = old
         mc.close()
@@ -161,6 +214,13 @@ def main(tier):
                 cs += deep4
             for i in range(0, len(cs), 900):
                 jobs.append((code, prefs, cs[i:i + 900]))
+    wshapes = list(shapes) if tier == "thorough" else list(shapes[::3])
+    run.count("code_walk_shapes", len(wshapes))
+    for a in CODES:
+        for b_ in CODES:
+            if a != b_:
+                for i in range(0, len(wshapes), 450):
+                    jobs.append(("W", a, b_, wshapes[i:i + 450]))
     outs = []
     for _ in range(2):
         mcx._worker_mc = mcx.Mc()
@@ -174,7 +234,7 @@ def main(tier):
         return 2
     f = terms.Filler("num", ".")
     run.sample({"config": "UEB Grade1", "label": deep[50][0], "doc": terms.doc(terms.build(deep[50][1], f)), "planted": f.planted})
-    for viol, counts, nontriv in mcx.pmap(work, jobs):
+    for viol, counts, nontriv in mcx.pmap(_dispatch, jobs):
         run.merge_violations(viol)
         run.merge_counts(counts)
         for h in nontriv:
@@ -182,7 +242,8 @@ def main(tier):
     return run.finish(
         rule="planted-literal terms as in C04 (all spine terms to depth 2; depth 3 over a 12-construct core for Nemeth/UEB/LaTeX in quick, all codes in "
              "thorough; depth 4 over a 6-construct core in thorough) x codes {Nemeth, UEB, CMU, Vietnam, LaTeX, ASCIIMath} x code preferences "
-             "(UEB start mode and operator spacing, Vietnam drop numbers, LaTeX short names, ASCIIMath operator spacing). "
+             "(UEB start mode and operator spacing, Vietnam drop numbers, LaTeX short names, ASCIIMath operator spacing); plus code walks on the SAME stored "
+             "expression: braille under A, then under B without a new set_mathml, for all 30 ordered pairs (quick: every third spine term; thorough: all). "
              "distinct_nontrivial = distinct (code, preferences, braille string) triples",
         assumptions=["the expected cell run of a literal is that of the bare <mn> in the same configuration, itself validated against hard-coded digit/decimal tables",
                      "CMU and Vietnam may drop the digits of simple numeric fractions to the lower cells: either form counts",
